@@ -7,6 +7,6 @@ theorem pin_src_run_skeleton : Generated.src_run_skeleton = "on_error = self.con
 
 theorem pin_src_test_globals : Generated.src_test_globals = "test_globals = self.global_namespace\nif self.module is None:\n    compileflags = 0\nelse:\n    test_globals.update(self.module.__dict__)\n    compileflags = self._extract_future_flags(test_globals)\ncompileflags |= __future__.print_function.compiler_flag\ncompileflags |= __future__.division.compiler_flag\ncompileflags |= ast.PyCF_ALLOW_TOP_LEVEL_AWAIT\nreturn (test_globals, compileflags)" := rfl
 
-theorem pin_src_runtime_state_init : Generated.src_runtime_state_init = "self._global_state = copy.deepcopy(DEFAULT_RUNTIME_STATE)\nif default_state:\n    self._global_state.update(default_state)\nself._inline_state = {}" := rfl
+theorem pin_src_runtime_state_init : Generated.src_runtime_state_init = "self._global_state = copy.deepcopy(DEFAULT_RUNTIME_STATE)\nif default_state:\n    self._global_state.update(copy.deepcopy(default_state))\nself._inline_state = {}" := rfl
 
 end Xdoc.Pins.Isolation
